@@ -19,3 +19,6 @@ def run(ctx, rep):
     more4.rule_slot_rectangle(mod, rep)
     from ..rules import more4
     more4.rule_extent_pairs(mod, rep)
+    from ..rules import more5
+    more5.rule_sched_busy(mod, rep)
+    more5.rule_supno_done(mod, rep)
